@@ -194,7 +194,64 @@ def gen_jsgf(rng, lang, feats):
     return "\n".join(lines) + "\n"
 
 
+# words added to the dictionary (decoder_add_word with the pronunciation of the second word) in cases whose
+# grammars name them: case variants of dictionary words and differently spelled homophones
+# ("goe", "tenn" are homophones the dictionary already has)
+ADDWORDS_EN = [("Go", "go"), ("Ten", "ten"), ("Forward", "forward"), ("Meters", "meters"), ("Two", "two"),
+               ("metrez", "meters"), ("meterz", "meters"), ("tenz", "ten"), ("foreward", "forward")]
+SENT_EN = ["go", "forward", "ten", "meters"]
+# (all of these are also in tests/data/turtle.dic, the small dictionary of the test-suite)
+OTHER_EN = {"go": ["halt", "stop"], "forward": ["backward", "four"], "ten": ["then", "two"], "meters": ["meter", "centimeters"]}
+TURTLE_DIC = DATA / "turtle.dic"
+_turtle = []
+
+
+def turtle_words():
+    if not _turtle:
+        _turtle.append({l.split()[0] for l in TURTLE_DIC.read_text().split("\n") if l.strip()})
+    return _turtle[0]
+
+
+def gen_fsg_special(rng, feats):
+    """FSG files aimed at what only hand-written FSG files can express (en-us, words of goforward.raw):
+    casepair — two words that differ only in letter case (the capitalised one added to the dictionary);
+    rejoin   — two different words with the same pronunciation leave DIFFERENT states and enter the SAME state
+               (branches re-join without a null arc), so both exit in the same frame with the same last phone"""
+    shape = rng.choice(["casepair", "rejoin", "rejoin"])
+    feats["fsg_" + shape] = feats.get("fsg_" + shape, 0) + 1
+    k = len(SENT_EN)
+    if shape == "casepair":
+        j = rng.below(k)
+        cap = SENT_EN[j].capitalize()
+        main = list(SENT_EN)
+        first_cap = rng.chance(0.6)
+        if not first_cap:
+            main[j] = cap                     # the capitalised spelling is on the decoded path
+        twin = cap if first_cap else SENT_EN[j]
+        n, final = k + 2, k + 1
+        side = f"TRANSITION {rng.choice([0, j])} {final} {rng.choice(['0.1', '0.5'])} {twin}"
+        path = [f"TRANSITION {i} {i + 1} {rng.choice(['0.9', '1.0', '0.5'])} {w}" for i, w in enumerate(main)]
+        path.append(f"TRANSITION {k} {final} 1.0")
+        lines = [side] + path                 # the twin is seen first by the reader
+        if rng.chance(0.3):
+            lines = path + [side]
+    else:
+        j = rng.below(k - 1)                  # branch over the words j, j+1
+        homo = {"meters": ["metrez", "meterz"], "ten": ["tenz"], "forward": ["foreward"]}[SENT_EN[j + 1]]
+        n, final, extra = k + 2, k, k + 1
+        lines = [f"TRANSITION {i} {i + 1} {rng.choice(['1.0', '0.5'])} {w}" for i, w in enumerate(SENT_EN)]
+        lines.append(f"TRANSITION {j} {extra} {rng.choice(['0.5', '0.3', '1.0'])} {rng.choice(OTHER_EN[SENT_EN[j]])}")
+        lines.append(f"TRANSITION {extra} {j + 2} {rng.choice(['1.0', '0.5'])} {rng.choice(homo)}")
+        if rng.chance(0.3):                   # a further word into the same state
+            lines.append(f"TRANSITION {extra} {j + 2} 0.5 {rng.choice(OTHER_EN[SENT_EN[j + 1]])}")
+        rng.shuffle(lines)
+    head = [f"FSG_BEGIN s{rng.below(1000)}", f"NUM_STATES {n}", "START_STATE 0", f"FINAL_STATE {final}"]
+    return "\n".join(head + lines + ["FSG_END"]) + "\n"
+
+
 def gen_fsg(rng, lang, feats):
+    if lang == "en-us" and rng.chance(0.3):
+        return gen_fsg_special(rng, feats)
     n = rng.range(1, 7)
     start, final = rng.below(n), rng.below(n)
     lines = [f"FSG_BEGIN g{rng.below(1000)}", f"NUM_STATES {n}", f"START_STATE {start}", f"FINAL_STATE {final}"]
@@ -426,10 +483,33 @@ def gen_case(rng, stats, thorough):
                 shared_audio = audio
             n = len(render_audio(audio)) // 2
             utts.append({"audio": audio, "plan": gen_plan(rng, n, stats, stream=audio[0].get("kind") == "wrap128")})
+        if gram["kind"] == "fsg" and gram["text"].startswith("FSG_BEGIN s") and int(cfg.get("samprate", 16000)) == 16000:
+            # the special FSG shapes speak the words of goforward.raw: decode it (whole or cut near its end), streamed
+            for t in utts:
+                if rng.chance(0.8):
+                    nn = rng.choice([44580, rng.range(31000, 36000), rng.range(15000, 44580)])
+                    t["audio"] = [{"src": "goforward.raw", "a": 0, "b": nn}]
+                    t["plan"] = gen_plan(rng, nn, stats, stream=True)
         units.append({"grammar": gram, "utts": utts})
         if rng.chance(0.12):
             units[-1]["prestart"] = True      # ask for a result before the first decoder_start_utt
-    return {"config": cfg, "lang": lang, "units": units}
+    case = {"config": cfg, "lang": lang, "units": units}
+    added = {w for w, _ in ADDWORDS_EN}
+    if lang == "en-us" and any(added & set(u["grammar"]["text"].split()) for u in units):
+        case["addwords"] = [list(x) for x in ADDWORDS_EN]
+    # a different dictionary (other word ids, other lextree order) when every grammar word is in it or added to it
+    if lang == "en-us" and all(u["grammar"]["kind"] in ("fsg", "align") for u in units):
+        words = set()
+        for u in units:
+            g = u["grammar"]
+            if g["kind"] == "align":
+                words |= set(g["text"].split())
+            else:
+                words |= {t.split()[4] for t in g["text"].split("\n") if t.startswith("TRANSITION") and len(t.split()) > 4}
+        if words <= (turtle_words() | added) and rng.chance(0.6):
+            cfg["dict"] = "@DATA/turtle.dic"
+            stats["features"]["dict_turtle"] = stats["features"].get("dict_turtle", 0) + 1
+    return case
 
 
 SMALL_N = [0, 1, 200, 409, 410, 411, 569, 570, 729, 730, 889, 890]     # 0,1,1,1,2,2,2,3,3,4,4,5 frames at 410/160
@@ -502,7 +582,9 @@ def hx(s):
 
 
 def case_ops(case, scratch, tag):
-    ops = ["newdec loglevel=FATAL " + " ".join(f"{k}={v}" for k, v in sorted(case["config"].items()))]
+    ops = ["newdec loglevel=FATAL " + " ".join(f"{k}={str(v).replace('@DATA', str(DATA))}" for k, v in sorted(case["config"].items()))]
+    for neww, like in case.get("addwords", []):      # decoder_add_word(new, pronunciation of `like`)
+        ops.append(f"addlike {hx(neww)} {hx(like)}")
     for ui, u in enumerate(case["units"]):
         g = u["grammar"]
         if g["kind"] == "jsgf":
@@ -527,6 +609,76 @@ def case_ops(case, scratch, tag):
                 else:
                     ops.append(" ".join(str(x) for x in op))
     return ops
+
+
+def parse_fsg_text(text):
+    """the grammar an FSG file denotes, read here and NOT through fsg_model_readfile (the format: FSG_BEGIN [name],
+    N/NUM_STATES n, S/START_STATE s, F/FINAL_STATE f, T/TRANSITION from to prob [word], FSG_END, '#' comments).
+    Returns (start, final, nstate, arcs) with arcs = [(from, to, word or None)]; null arcs are closed transitively
+    (same language; the loader stores the closure), null self-loops dropped."""
+    start = final = n = None
+    arcs, inside = [], False
+    for line in text.split("\n"):
+        t = line.split()
+        if not t or t[0].startswith("#"):
+            continue
+        if t[0] == "FSG_BEGIN":
+            inside = True
+        elif not inside:
+            continue
+        elif t[0] == "FSG_END":
+            break
+        elif t[0] in ("N", "NUM_STATES"):
+            n = int(t[1])
+        elif t[0] in ("S", "START_STATE"):
+            start = int(t[1])
+        elif t[0] in ("F", "FINAL_STATE"):
+            final = int(t[1])
+        elif t[0] in ("T", "TRANSITION"):
+            arcs.append((int(t[1]), int(t[2]), t[4] if len(t) > 4 else None))
+    nulls = {(a, b) for a, b, w in arcs if w is None and a != b}
+    changed = True
+    while changed:
+        changed = False
+        for a, b in list(nulls):
+            for c, d in list(nulls):
+                if b == c and a != d and (a, d) not in nulls:
+                    nulls.add((a, d))
+                    changed = True
+    words = []
+    for a, b, w in arcs:
+        if w is not None and (a, b, w) not in words:
+            words.append((a, b, w))
+    return start, final, n, words + [(a, b, None) for a, b in sorted(nulls)]
+
+
+def dict_base_rule(w):
+    """dict_word2basestr: a trailing "(…)" is a pronunciation-variant marker"""
+    if w.endswith(")") and "(" in w[1:]:
+        return w[:w.rindex("(")]
+    return w
+
+
+def loaded_block_from_text(text, blk):
+    """G… lines (the grammar as loaded) for an FSG file, from its text; base forms as the dump's search vocabulary
+    gives them (dict_basestr computed by the harness), else by the dictionary's marker rule"""
+    start, final, n, arcs = parse_fsg_text(text)
+    base = {}
+    for l in blk:
+        if l.startswith("SW "):
+            t = l.split()
+            if t[5] != "null":
+                base[unhex(t[2])] = unhex(t[5])
+    vocab = []
+    for _, _, w in arcs:
+        if w is not None and w not in vocab:
+            vocab.append(w)
+    out = [f"GF {start} {final} {n} {len(vocab)}"]
+    for i, w in enumerate(vocab):
+        out.append(f"GW {i} {hx(w)} 0 0 {hx(base.get(w, dict_base_rule(w)))}")
+    for i, (a, b, w) in enumerate(arcs):
+        out.append(f"GA {i} {a} {b} 0 {-1 if w is None else vocab.index(w)}")
+    return out
 
 
 def parse_harness(out):
@@ -750,7 +902,19 @@ def run_case(binp, case, scratch, tag, nfoff):
     if rc != 0:
         last = next((l for l in reversed(out.split("\n")) if l.startswith("> ")), "?")
         res["crash"] = {"exit_code": rc, "during": last, "stderr_tail": err[-1800:]}
-    dumps = [e for e in ev if e[0] == "dump"]
+    # the loaded grammar of an FSG FILE is read from its text here, independently of the library's reader
+    gi, override, dumps = -1, None, []
+    for e in ev:
+        if e[0] == "cmd" and e[1] in ("jsgf", "fsgfile", "align"):
+            gi += 1
+            if e[2] is not None and e[2][-1] == "0":
+                g = case["units"][gi]["grammar"] if gi < len(case["units"]) else None
+                override = g["text"] if g and g["kind"] == "fsg" else None
+        elif e[0] == "dump":
+            blk = e[2]
+            if override is not None and blk and blk[0].startswith("D begin"):
+                blk = [blk[0]] + loaded_block_from_text(override, blk) + [l for l in blk[1:] if not l.startswith(("GF ", "GW ", "GA "))]
+            dumps.append(("dump", e[1], blk))
     if dumps:
         text = "\n".join("\n".join(e[2]) for e in dumps) + "\n"
         rc2, dout, derr = run_driver(text)
